@@ -349,6 +349,12 @@ impl Database {
             .wrap_err_with(|| format!("failed to create metadata file at {:?}", meta_path))?;
         file.write_all(&page)
             .wrap_err("failed to write database header")?;
+        // the header is not rewritten until the next DDL statement: without a sync here a
+        // power loss leaves a zero-filled turdb.meta and the whole database unopenable
+        file.sync_all()
+            .wrap_err("failed to sync database header")?;
+        #[cfg(kahflane_turdb_verif)]
+        crate::verif::synced(&file);
 
         let wal_dir = path.join("wal");
 
@@ -563,6 +569,35 @@ impl Database {
                 .collect()
         };
 
+        // largest row key of one table; a table that cannot be read is skipped here and
+        // reports its error when it is actually used
+        fn max_row_key(storage: &mut crate::storage::MmapStorage) -> Result<Option<u64>> {
+            let root_page = TableFileHeader::from_bytes(storage.page(0)?)?.root_page();
+            if root_page == 0 {
+                return Ok(None);
+            }
+            let btree = crate::btree::BTree::new(storage, root_page)?;
+            let mut max_row_id: Option<u64> = None;
+            let mut cursor = btree.cursor_last()?;
+            if !cursor.valid() {
+                // rightmost leaf emptied by deletes: walk forward to the real last key
+                cursor = btree.cursor_first()?;
+                while cursor.valid() {
+                    if let Ok(bytes) = <[u8; 8]>::try_from(cursor.key()?) {
+                        max_row_id = max_row_id.max(Some(u64::from_be_bytes(bytes)));
+                    }
+                    if !cursor.advance()? {
+                        break;
+                    }
+                }
+                return Ok(max_row_id);
+            }
+            if let Ok(bytes) = <[u8; 8]>::try_from(cursor.key()?) {
+                max_row_id = Some(u64::from_be_bytes(bytes));
+            }
+            Ok(max_row_id)
+        }
+
         let mut max_row_id = 0u64;
         let mut file_manager_guard = self.shared.file_manager.write();
         let file_manager = file_manager_guard.as_mut().unwrap();
@@ -570,29 +605,12 @@ impl Database {
             if !file_manager.table_exists(schema_name, table_name) {
                 continue;
             }
-            let storage_arc = file_manager.table_data_mut(schema_name, table_name)?;
+            let Ok(storage_arc) = file_manager.table_data_mut(schema_name, table_name) else {
+                continue;
+            };
             let mut storage = storage_arc.write();
-            let root_page = TableFileHeader::from_bytes(storage.page(0)?)?.root_page();
-            if root_page == 0 {
-                continue;
-            }
-            let btree = crate::btree::BTree::new(&mut *storage, root_page)?;
-            let mut cursor = btree.cursor_last()?;
-            if !cursor.valid() {
-                // rightmost leaf emptied by deletes: walk forward to the real last key
-                cursor = btree.cursor_first()?;
-                while cursor.valid() {
-                    if let Ok(bytes) = <[u8; 8]>::try_from(cursor.key()?) {
-                        max_row_id = max_row_id.max(u64::from_be_bytes(bytes));
-                    }
-                    if !cursor.advance()? {
-                        break;
-                    }
-                }
-                continue;
-            }
-            if let Ok(bytes) = <[u8; 8]>::try_from(cursor.key()?) {
-                max_row_id = max_row_id.max(u64::from_be_bytes(bytes));
+            if let Ok(Some(m)) = max_row_key(&mut storage) {
+                max_row_id = max_row_id.max(m);
             }
         }
         self.shared
